@@ -469,6 +469,52 @@ def reassemble_body(c):
               sample=sample)
 
 
+def int_cotangent_body(c):
+    """Integer cotangents (rows of an integer identity, one-hot selectors) pulled back through programs that use a value
+    densely and through a gather, in every order: the result is 2 g + scatter(g) - or the call raises; the scattered part is never dropped."""
+    import autograd
+    import autograd.numpy as anp
+
+    n = c.int(3, 5)
+    two_d = c.bool()
+    shape = (n, 2) if two_d else (n,)
+    vseed = c.seed()
+    x0 = values.generic(vseed, [shape], -1.5, 1.5)[0][0]
+    perm = [c.int(-n, n - 1) for _ in range(n)]
+    order = c.int(0, 3)
+    gkind = c.choice(["int64_onehot", "int64", "int32", "float_control"])  # (a boolean array is not a cotangent: True + True is True)
+    if gkind == "int64_onehot":
+        g = onp.zeros(shape, dtype=onp.int64)
+        g.reshape(-1)[c.int(0, g.size - 1)] = 1
+    elif gkind in ("int64", "int32"):
+        g = onp.rint(values.direction(vseed, shape, 3) * 3).astype(onp.int64 if gkind == "int64" else onp.int32)
+    else:
+        g = values.direction(vseed, shape, 3)
+    sample = {"shape": list(shape), "gather": perm, "order": order, "cotangent": gkind, "g": g.tolist(), "vseed": vseed}
+    c.features.update(order=order, cotangent=gkind)
+
+    def f(x):
+        gath = x[perm]
+        return [lambda: (gath + x) + x, lambda: (x + x) + gath, lambda: x + (gath + x), lambda: (x + gath) + x * 1.0][order]()
+
+    gf = g.astype(float)
+    scat = onp.zeros(shape)
+    onp.add.at(scat, onp.array(perm), gf)
+    want = 2.0 * gf + scat
+    try:
+        vjp, _ = autograd.make_vjp(f)(x0)
+        got = onp.asarray(vjp(g))
+        got2 = onp.asarray(vjp(g))
+    except Exception as e:
+        if not from_autograd(e) and not isinstance(e, (TypeError, ValueError)):
+            raise
+        return raised(e, "int_cotangent", sample=sample)
+    for r in (got, got2):
+        if r.shape != want.shape or not onp.allclose(r.astype(float), want, rtol=1e-12, atol=1e-12):
+            return fail("wrong_value", f"cotangent of kind {gkind}: vjp gives {r.tolist()} but 2 g + scatter(g) = {want.tolist()}", f"C11|int_cotangent|{gkind}", sample=sample)
+    return ok(nontrivial=gkind != "float_control", key=json.dumps([list(shape), perm, order, gkind]), labels=["cotangent=" + gkind, f"order={order}"], sample=sample)
+
+
 def finalize(agg):
     return {}
 
@@ -477,6 +523,7 @@ PROP = Prop("C11", [
     Test("index", index_body, quick=4000, thorough=60000, shard_size=400),
     Test("mixing", mixing_body, quick=1500, thorough=20000, shard_size=200),
     Test("reassemble", reassemble_body, quick=2500, thorough=20000, shard_size=250),
+    Test("int_cotangent", int_cotangent_body, quick=1500, thorough=10000, shard_size=250),
 ], RULE, assumptions=[
     "NumPy's own indexing applied to arange(size) identifies the selected positions (the scatter model)",
 ])
